@@ -273,6 +273,76 @@ def struct_emission(ctx):
         nw, len({k[0] for k in per})))
 
 
+# ---------------------------------------------------------------------- envelope on the wire (real KmipSession)
+def session_envelope(ctx):
+    """What the client actually receives: requests of every supported version, ordinary and refused at message level
+    (stale / future time stamp, asynchronous indicator, Undo, a multi-item batch without ids, a response larger than
+    the stated maximum, an engine failure, a response that cannot be encoded), sent over ONE connection per version
+    through the real KmipSession; every answer is parsed by the independent parser and must carry the REQUEST's
+    version, a time stamp, a batch count equal to its items and the status / reason / message rule."""
+    import kdrv
+    import sessdrv
+    import ttlvparse
+    from kmip.core import enums
+    rng = ctx.subrng('session-envelope')
+    A, M = enums.CryptographicAlgorithm, enums.CryptographicUsageMask
+    n = bad = 0
+    outcomes = {}
+    for version in kdrv.VERSIONS:
+        eng = kdrv.Engine(workdir=ctx.work)
+        try:
+            proxy = sessdrv.EngineProxy(eng)
+            ts = 1600000000
+            create = lambda: kdrv.create(A.AES, 256, (M.ENCRYPT, M.DECRYPT))
+            scen = [
+                ('create', [create()], {}, None),
+                ('get-missing', [kdrv.get('999')], {}, None),
+                ('batch-stop', [kdrv.get('999'), create()], {}, None),
+                ('batch-continue', [kdrv.get('999'), create(), kdrv.get('998')], {'batch_option': enums.BatchErrorContinuationOption.CONTINUE}, None),
+                ('stale-time-stamp', [create()], {'time_stamp': ts - 1000}, None),
+                ('future-time-stamp', [create()], {'time_stamp': ts + 1000}, None),
+                ('asynchronous', [create()], {'asynchronous': True}, None),
+                ('undo', [create(), create()], {'batch_option': enums.BatchErrorContinuationOption.UNDO}, None),
+                ('batch-without-ids', [create(), create()], {'ids': False}, None),
+                ('too-large', [kdrv.query()], {'max_size': 16}, None),
+                ('limit-that-fits', [kdrv.discover_versions([])], {'max_size': 4096}, None),
+                ('engine-crash', [create()], {}, ('crash',)),
+                ('unencodable-response', [create()], {}, ('unencodable',)),
+                ('query', [kdrv.query()], {}, None),
+                ('locate', [kdrv.locate([], None, None)], {}, None),
+            ]
+            rng.shuffle(scen)
+            scen = scen + [('create-again', [create()], {}, None)]
+            stream = b''
+            for name, items, kw, fault in scen:
+                stream += sessdrv.encode_request(eng.build(items, version=version, **kw), version)
+                proxy.faults.append(fault)
+            obs, conn = sessdrv.run_spec(proxy, sessdrv.default_spec(stream, ts=ts), dumps=False)
+            frames = obs['frames']
+            if len(frames) != len(scen):
+                ctx.violation({'path': 'session', 'problem': 'answers != requests'},
+                              {'version': version, 'scenarios': [x[0] for x in scen], 'frames': len(frames)},
+                              '%d requests on one connection got %d answers' % (len(scen), len(frames)))
+            for (name, items, kw, fault), fr in zip(scen, frames):
+                n += 1
+                ctx.count('session-envelope.%s' % name)
+                sent = b''.join(fr['sent'])
+                ctx.case_seen(('session-envelope', version, name, sent[:64]), nontrivial=True)
+                probs, summ = (['no response was sent'], None) if not sent else ttlvparse.envelope_problems(sent, version)
+                outcomes.setdefault(name, set()).add(repr(summ['items']) if summ else 'unparsed')
+                for pr in probs:
+                    bad += 1
+                    ctx.violation({'path': 'session', 'scenario': name, 'problem': pr.split(' (')[0][:60]},
+                                  {'version': version, 'scenario': name, 'kwargs': repr(kw), 'injected': fault,
+                                   'connection': [x[0] for x in scen], 'response': sent.hex()},
+                                  'KmipSession answer to a KMIP %d.%d request (%s) violates the envelope: %s' % (version[0], version[1], name, pr))
+        finally:
+            eng.close()
+    ctx.cov['session_envelope'] = {'requests': n, 'versions': len(kdrv.VERSIONS),
+                                   'outcomes (status, reason) per scenario': {k: sorted(v) for k, v in sorted(outcomes.items())}}
+    ctx.log('session envelope: %d answers of the real KmipSession parsed (%d problems)' % (n, bad))
+
+
 _run_prims = run
 
 
@@ -281,8 +351,10 @@ def run(ctx):
     ctx.cov['rule'] += (' Structures: props/C02E.v instantiates wr_wf at the writer schemas regenerated from the tree; in addition '
                         'every class writes schema-generated and harvested objects and the output is parsed by the independent parser.')
     struct_emission(ctx)
+    session_envelope(ctx)
     ctx.cov['rule'] += (' Envelope: seeded random request histories (~70% successes, every error class reachable by the workload, '
                         'request-level errors) on the real engine; every response is encoded and parsed by an independent TTLV '
-                        'parser; distinct = distinct (operation, status, reason, message).')
+                        'parser; distinct = distinct (operation, status, reason, message).  The same rule is checked on what the real KmipSession '
+                        'puts on the wire for ordinary and message-level-refused requests of every version.')
     ctx.regen(only=['kmiperrors'])
     run_envelope(ctx)
